@@ -1,1 +1,89 @@
-//! placeholder
+//! Reference models (oracles), written from the property statements and the
+//! ProGuard retrace manual - not from the implementation.
+
+/// One mapping entry of a (class, obfuscated method), in the abstract form
+/// both representations encode: `range` = obfuscated line range if the
+/// record has a usable one (both numbers > 0); `orig` = what was printed
+/// after the argument list.
+#[derive(Clone, Copy)]
+pub struct Entry {
+    /// usable obfuscated range (start, end), both > 0, or None
+    pub range: Option<(u64, u64)>,
+    /// original start line as stored (identity range start when nothing was printed)
+    pub os: u64,
+    /// original end line: None when only `:os` was printed (call-site line of an inline parent)
+    pub oe: Option<u64>,
+}
+
+/// Does the entry apply to `line`? Entries without a usable range always apply.
+pub fn applies(e: &Entry, line: u64) -> bool {
+    match e.range {
+        None => true,
+        Some((s, end)) => s <= line && line <= end,
+    }
+}
+
+/// The ProGuard original-line rule (mathematical, no wrap-around): returns None
+/// when the result does not fit in 64 bits (outside every property's domain).
+pub fn orig_line(e: &Entry, line: u64) -> Option<u64> {
+    match e.range {
+        // no usable range: line 0 (stored os is 0 in that case)
+        None => Some(e.os),
+        Some((s, _)) => match e.oe {
+            // only `:os` printed: call-site line
+            None => Some(e.os),
+            // single-line collapse
+            Some(oe) if oe == e.os => Some(e.os),
+            // range-to-range offset
+            Some(_) => e.os.checked_add(line - s),
+        },
+    }
+}
+
+/// Outer simple class name: text after the last '.', up to the first '$'.
+pub fn outer_simple_name(class: &str) -> &str {
+    let b = class.as_bytes();
+    let mut start = 0;
+    let mut i = 0;
+    while i < b.len() {
+        if b[i] == b'.' {
+            start = i + 1;
+        }
+        i += 1;
+    }
+    let mut end = start;
+    while end < b.len() && b[end] != b'$' {
+        end += 1;
+    }
+    // ASCII delimiters: always on char boundaries
+    &class[start..end]
+}
+
+pub const SYNTHETIC_MARKER: &str = "R8$$SyntheticClass";
+
+/// Source-file rule: `entry_file` is the class's sourceFile at the time the
+/// entry was recorded, `entry_class` the foreign original class if any,
+/// `class` the (original) class of the frame, `frame_file` the frame's file.
+pub fn orig_file<'a>(
+    entry_file: Option<&'a str>,
+    entry_class: Option<&'a str>,
+    class: &'a str,
+    frame_file: Option<&'a str>,
+) -> Option<&'a str> {
+    match entry_file {
+        Some(f) => {
+            if f == SYNTHETIC_MARKER {
+                Some(outer_simple_name(entry_class.unwrap_or(class)))
+            } else {
+                Some(f)
+            }
+        }
+        None => {
+            if entry_class.is_some() {
+                None
+            } else {
+                frame_file
+            }
+        }
+    }
+}
